@@ -19,17 +19,38 @@ def fr(x):
 def gen_net(rnd):
     n = rnd.randint(1, 12)
     kind = rnd.choice(['er', 'er', 'hub', 'iso', 'loop', 'regular'])
+    if rnd.random() < 0.04:
+        # a single hub whose degree exceeds the 301 terms evaluate() adds up when no largest term is given
+        n = rnd.choice([302, 303, 350, 420]); kind = 'hub'
     if kind == 'er': es = [[a, b] for a in range(n) for b in range(a + 1, n) if rnd.random() < rnd.choice([0.1, 0.3, 0.6])]
     elif kind == 'hub': es = [[0, b] for b in range(1, n)]
     elif kind == 'iso': es = [[0, 1]] if n > 1 else []
     elif kind == 'loop': es = [[a, a] for a in range(n) if rnd.random() < 0.3] + [[a, (a + 1) % n] for a in range(n) if n > 2]
     else: es = [[a, (a + 1) % n] for a in range(n)] if n > 2 else []
-    return dict(kind='net', n=n, edges=es)
+    spec = dict(kind='net', n=n, edges=es)
+    if rnd.random() < 0.4 and 3 <= n <= 12:
+        # the same graph object had other edges before (same node count, usually the same edge count) and was read then
+        prior = []
+        for _ in range(rnd.choice([1, 1, 2])):
+            m = len(es) if rnd.random() < 0.75 else rnd.randint(0, n)
+            pairs = [[a, b] for a in range(n) for b in range(a + 1, n)]
+            rnd.shuffle(pairs)
+            prior.append(pairs[:m])
+        spec['prior'] = prior
+    return spec
 
 
 def run_net(spec):
     n = spec['n']
-    g = nx.Graph(); g.add_nodes_from(range(n)); g.add_edges_from([tuple(e) for e in spec['edges']])
+    g = nx.Graph(); g.add_nodes_from(range(n))
+    for es in spec.get('prior', []):
+        g.add_edges_from([tuple(e) for e in es])
+        try:
+            h = gf_from_network(g); h[0]; h[1]
+        except Exception:
+            pass
+        g.remove_edges_from(list(g.edges()))
+    g.add_edges_from([tuple(e) for e in spec['edges']])
     ds = [d for (_, d) in g.degree()]
     N = g.order(); M = g.number_of_edges()
     viol = []; exp = []
@@ -51,7 +72,7 @@ def run_net(spec):
         for k in (1, 2):
             for i in range(0, maxk + 1):
                 if i + k <= maxk + 1 and not viol:
-                    want = float(cs[i + k] if i + k <= maxk else 0) * math.factorial(i + k) / math.factorial(i)
+                    want = float((cs[i + k] if i + k <= maxk else 0) * F(math.factorial(i + k), math.factorial(i)))
                     got = gf.dx(k)[i]
                     if abs(got - want) > 1e-9 * max(1, abs(want)): viol.append(f"dx({k})[{i}] = {got}, expected {want}")
         mean = sum(F(i) * c for i, c in enumerate(cs))
